@@ -1,0 +1,88 @@
+package condition
+
+import (
+	"errors"
+	"sync"
+
+	"github.com/expr-lang/expr"
+	"github.com/expr-lang/expr/ast"
+	"github.com/expr-lang/expr/parser"
+	"github.com/expr-lang/expr/vm"
+)
+
+// NullOperandValue gives a scalar expression outside of a predicate, e.g. a
+// SELECT item, the value SQL assigns to it when a NULL operand reaches an = or
+// != comparison. Evaluated by expr-lang alone `s != 'x'` is true for a NULL s
+// (nil != "x"), so a projected comparison disagreed with the same comparison in
+// WHERE. It uses the two programs of ExprCondition: the normal one, in which a
+// NULL operand of = / != is an evaluation failure, detects the situation, and
+// the NULL-tolerant variant with three-valued comparison, AND, OR and NOT then
+// supplies the value. Rows on which no NULL operand reaches such a comparison
+// are left to the caller's own evaluation, so their results do not change.
+type NullOperandValue struct {
+	detector     *vm.Program
+	expression   string
+	options      []expr.Option
+	tolerantOnce sync.Once
+	tolerant     *vm.Program
+}
+
+// NewNullOperandValue compiles expression, which must already be lowered to
+// expr-lang syntax the way a filter condition is (LIKE, IS NULL, backticks). It
+// returns nil without an error when the expression contains no = or !=
+// comparison that a NULL operand could reach: there is nothing to decide then.
+func NewNullOperandValue(expression string) (*NullOperandValue, error) {
+	tree, err := parser.Parse(expression)
+	if err != nil {
+		return nil, err
+	}
+	finder := &sqlEqualityFinder{}
+	ast.Walk(&tree.Node, finder)
+	if !finder.found {
+		return nil, nil
+	}
+	options := baseOptions()
+	primary := append(options[:len(options):len(options)], sqlEqualityOptions(false)...)
+	detector, err := expr.Compile(expression, primary...)
+	if err != nil {
+		return nil, err
+	}
+	return &NullOperandValue{detector: detector, expression: expression, options: options}, nil
+}
+
+// sqlEqualityFinder looks for a comparison that sqlEqualityPatcher rewrites.
+type sqlEqualityFinder struct{ found bool }
+
+func (f *sqlEqualityFinder) Visit(node *ast.Node) {
+	if bn, ok := (*node).(*ast.BinaryNode); ok {
+		if _, eq := sqlEqualityFuncs[bn.Operator]; eq && !isNullLiteral(bn.Left) && !isNullLiteral(bn.Right) {
+			f.found = true
+		}
+	}
+}
+
+// Evaluate reports with ok whether a NULL operand reached an = or != comparison
+// while the expression was evaluated on env, and if so returns the value of the
+// expression under three-valued logic: nil for NULL. ok is false when there was
+// no such operand or when the expression cannot be evaluated at all; the caller
+// then evaluates the expression as it did before.
+func (nv *NullOperandValue) Evaluate(env any) (value any, ok bool) {
+	if _, err := expr.Run(nv.detector, env); err == nil || !errors.Is(err, errNullOperand) {
+		return nil, false
+	}
+	nv.tolerantOnce.Do(func() {
+		opts := append(append([]expr.Option{}, nv.options...), sqlEqualityOptions(true)...)
+		opts = append(opts, nullSafeComparisonOptions()...)
+		if p, err := expr.Compile(nv.expression, opts...); err == nil {
+			nv.tolerant = p
+		}
+	})
+	if nv.tolerant == nil {
+		return nil, false
+	}
+	value, err := expr.Run(nv.tolerant, env)
+	if err != nil {
+		return nil, false
+	}
+	return value, true
+}
